@@ -32,7 +32,9 @@ RULE = (
     "without spikes of un-curated data are don't-care); spikes.depths = feature-weighted depth "
     "(features) or cluster depth (no features) as float32; clusters.peakToTrough = (argmax-argmin "
     "on the peak channel)/rate*1e3 with NaN for emptied ids; channels.rawInd cut per probe == "
-    "each probe's original channel map. Non-trivial: merged with >=3 probes, or a distance tie at "
+    "each probe's original channel map. Single datasets are, in half of the cases, curated again, "
+    "reloaded and exported a second time into the same directory (force=True) and verified again. "
+    "Non-trivial: merged with >=3 probes, or a distance tie at "
     "the cut, or factor != 1, or an emptied cluster id.")
 ASSUMPTIONS = ['pc-feature stores that hold all spikes', 'float32 storage: rtol 1e-4',
                'merge inputs as in C11/C12']
@@ -48,7 +50,8 @@ def _case(draw):
                                    int_templates=False))
         if spec['raw'] and spec['raw']['backend'] == 'cbin':
             spec['raw']['chunk'] = max(spec['raw']['chunk'], int(ceil(spec['n_raw'] / 18.0)))
-        return {'k': 'single', 'spec': spec, 'factor': factor, 'ncc': draw(st.integers(2, 12))}
+        return {'k': 'single', 'spec': spec, 'factor': factor, 'ncc': draw(st.integers(2, 12)),
+                'reexport': draw(st.none() | st.lists(D._curation_op, min_size=1, max_size=3))}
     mc = draw(G.merge_case(exclude_f13=True))
     for p in mc['probes']:
         p['templates']['int'] = False
@@ -265,6 +268,24 @@ def check(case):
             out = d / 'alf'
             om = must_return('convert', creator.convert, out, ampfactor=f)
             check_export(S, m, out, f, case['ncc'], chmaps, info)
+            if case.get('reexport'):
+                # history: curate again, reload, export again into the same directory (force)
+                new = D.apply_curation([int(x) for x in S.sc], case['reexport'])
+                must_return('save_spike_clusters', m.save_spike_clusters,
+                            np.array(new, dtype=np.int32))
+                for x in (m, om):
+                    try:
+                        x.close()
+                    except Exception:
+                        pass
+                om = None
+                m = load_with_ncc(src / 'params.py', case['ncc'])
+                S = Source(src, rate)
+                creator = must_return('EphysAlfCreator()', EphysAlfCreator, m)
+                om = must_return('convert (again, same directory, force)', creator.convert, out,
+                                 force=True, ampfactor=f)
+                check_export(S, m, out, f, case['ncc'], chmaps, info)
+                info['reexported'] = True
         finally:
             for x in (m, om):
                 try:
@@ -303,4 +324,6 @@ def classify(case, info):
     if info.get('emptied'):
         labels.append('emptied-cluster-id')
         nt = True
+    if info.get('reexported'):
+        labels.append('re-export-into-same-directory')
     return labels, nt
